@@ -21,6 +21,7 @@ UNIVERSE = {  # name -> (methods, discoverable)
     "alpha": ({"m1", "m2"}, True),
     "beta": ({"m2", "m3"}, True),
     "gamma": ({"m1", "m3", "m4"}, False),
+    "d": ({"m2", "p/q"}, True),          # a plug-in whose method names contain a slash (as the external optimizer's do)
 }
 
 
@@ -262,6 +263,8 @@ def build_cases(tier):
     add([("gamma", "gamma", False), ("alpha", "alpha", True), ("ALPHA", "beta", True)])   # duplicate after prioritisation
     add([("alpha", "alpha", True), ("beta", "beta", True)], second_manager=True)
     add([("scipy", "alpha", False), ("x", "gamma", False)])                               # duplicate of an entry-point plug-in
+    add([("d", "d", False), ("alpha", "alpha", False)])                                      # 'd/p/q': only the first slash separates the plug-in name
+    add([("Gauß", "alpha", True), ("GAUSS", "beta", False)])                                 # a non-ASCII name: lower-casing, not case folding
     add([("alpha", "alpha", False)], later=[("beta", "beta", True)])                         # lookup, prioritised add, lookup again
     add([], later=[("gamma", "gamma", True), ("alpha", "alpha", True)])
     add([("beta", "beta", False)], later=[("alpha", "alpha", False)], second_manager=True)
